@@ -165,9 +165,10 @@ def run(ck: Check) -> None:
             defs += f"Definition p_{q} : proc := {p}.\n"
             exprs.append(f"(if proc_eqb p_{q} (proc_of (norm t1_{q})) && ({bl} =? nbytes t1_{q}) then 0 else 4)")
             metas.append((q, "t1", None))
+            have_p = True
         except T1Error as e:
             ck.broken(Broken(f"tie T1 (emitted Python vs model renderer): {e}", json.dumps(s1.texts)[:1500]))
-            continue
+            have_p = False       # the property itself (impl vs projection) is still evaluated below
         enc_new = [rr["enc"] for rr in res_new[i]["runs"]]
         for vi, (v, d, bs) in enumerate(zip(vals, r["decs"], enc_new)):
             n_eval += 1
@@ -179,7 +180,9 @@ def run(ck: Check) -> None:
                 dv = f"(Raise {pyside.exn_term(d.get('dec_exc', '?'))})"
             bts = pyside.bytes_term(bs)
             # bit0: model != impl; bit1: impl != projection (the property); bit4: impl bytes != Spec.wire t2
-            exprs.append(f"((if res_val_sim (norm t1_{q}) (py_decode_proc p_{q} {bl} (py_default (norm t1_{q})) {bts}) {dv} then 0 else 1) + "
+            model_term = (f"(py_decode_proc p_{q} {bl} (py_default (norm t1_{q})) {bts})" if have_p
+                          else f"(py_decode t1_{q} {bts})")
+            exprs.append(f"((if res_val_sim (norm t1_{q}) {model_term} {dv} then 0 else 1) + "
                          f"(if res_val_sim (norm t1_{q}) (Ok (proj (norm t1_{q}) {cv2})) {dv} then 0 else 2) + "
                          f"(if zlist_eqb (wire t2_{q} {cv2}) {bts} then 0 else 16))")
             metas.append((q, "dec", vi))
